@@ -1,0 +1,9 @@
+//go:build !verif
+
+package cluster
+
+// No-op counterparts of the verification hooks (see verifhook_on.go, build tag verif).
+
+func verifPause(point string) {}
+
+func verifFault(point string, n int) error { return nil }
